@@ -57,12 +57,18 @@ def cases(tier, rng, boost=1):
     # corpus: singleton lumping with an order-reversing label map; short non-reversible data with positive=True
     yield _mk([[5, 11, 42, 11, 5, 5, 42, 42, 11, 5, 42, 5, 11, 11, 42, 5]], [[30, -7, 12, -7, 30, 30, 12, 12, -7, 30, 12, 30, -7, -7, 12, 30]], 1, False,
               src='corpus', kind='singleton')
+    # periodic micro model: strictly alternating between two groups of microstates -> irreducible but NOT ergodic -> must be refused
+    yield _mk([[0, 2, 1, 3, 0, 3, 1, 2, 0, 2, 1, 3, 1, 2, 0, 3, 0, 2]], [[5, 9, 5, 9, 5, 9, 5, 9, 5, 9, 5, 9, 5, 9, 5, 9, 5, 9]], 1, False, src='corpus', kind='lump')
+    yield _mk([[0, 2, 1, 3, 0, 3, 1, 2, 0, 2, 1, 3, 1, 2, 0, 3, 0, 2]], [[5, 9, 6, 9, 5, 9, 6, 9, 5, 9, 6, 9, 6, 9, 5, 9, 5, 9]], 3, True, src='corpus', kind='lump')
     nmodels = {'quick': 150, 'thorough': 1500, 'search': 400}[tier] * boost
     for _ in range(nmodels):
         n = rng.randint(2, 7)
         ntraj = rng.randint(1, 3)
         L = rng.choice([6, 10, 28, 40, 80, 200])
         idx = [sample_chain(rng, n, L, cyc_bias=rng.choice([0.0, 0.3])) for _ in range(ntraj)]
+        if rng.random() < 0.08 and n >= 4:
+            half = n // 2           # bipartite (period 2) dynamics
+            idx = [[(rng.randrange(half) if k % 2 == 0 else half + rng.randrange(n - half)) for k in range(L)] for _ in range(ntraj)]
         mlabs, _ = gen.alphabet(rng, n)
         micro = gen.relabel(idx, mlabs)
         lumps = []
